@@ -3,6 +3,7 @@ package props
 import (
 	"context"
 	"fmt"
+	"io"
 	"net"
 	"strings"
 	"time"
@@ -25,7 +26,7 @@ func (c16) ChildParallel() int          { return 1 }
 func (c16) Exhaustive(tier string) bool { return true }
 func (c16) Rule() string {
 	return "real tcpTransport (verif constructor hook, and the real listener/dialer over loopback) fed by a raw peer through a byte-counting in-memory connection. " +
-		"Enumerated completely (both tiers): limits {64,256,1024,4096,65536} x framed envelope sizes {1cls: small, L/2, L-1, L, L+1, L+200, 2L-1, 2L, 2L+1, 4L, 64L} x position {first, after 1 small, coalesced with a predecessor, after many small, after one of framed size L, after a predecessor whose newline is still unread} x fragmentation {1 byte, 512-byte reads, whole stream at once, PRNG chunks} (thorough adds more PRNG fragmentations and more predecessors), plus the 8 MiB default limit (accept 8 MiB-δ, reject 17 MiB), plus listener.Accept / DialTcp limits over real loopback. " +
+		"Enumerated completely (both tiers): limits {64,256,1024,4096,65536} x framed envelope sizes {1cls: small, L/2, L-1, L, L+1, L+200, 2L-1, 2L, 2L+1, 4L, 64L} x position {first, after 1 small, coalesced with a predecessor, after many small, after one of framed size L, after a predecessor whose newline is still unread, primed: a near-limit predecessor followed by a tiny envelope coalesced with the target; the last two also with a TraceWriter configured} x fragmentation {1 byte, 512-byte reads, whole stream at once, PRNG chunks} (thorough adds more PRNG fragmentations and more predecessors), plus the 8 MiB default limit (accept 8 MiB-δ, reject 17 MiB), plus listener.Accept / DialTcp limits over real loopback. " +
 		"'framed size' = JSON value + the newline the library's own sender appends. Monitor: bytes handed to the transport by the connection during each Receive (must be <= limit); framed <= L must be accepted intact (and the stream must stay in sync: a following envelope is received); framed > 2L must be rejected; sizes in (L,2L] are recorded either way. Non-trivial = target size >= L/2; distinct = (limit, size class, position, fragmentation)."
 }
 func (c16) Assumptions() []string {
@@ -36,7 +37,7 @@ func (c16) Floors(tier string) map[string]int {
 }
 
 var c16limits = []int{64, 256, 1024, 4096, 65536}
-var c16positions = []string{"first", "after1", "coalesced", "aftermany", "afterL", "unreadnl"}
+var c16positions = []string{"first", "after1", "coalesced", "aftermany", "afterL", "unreadnl", "primed", "primed-trace", "after1-trace"}
 var c16frags = []string{"1", "512", "all", "rand"}
 
 func (c16) Plan(tier string, seed uint64) []core.Case {
@@ -66,6 +67,12 @@ func c16msg(id string, n int) []byte {
 }
 
 const c16minValue = 48
+
+// c16trace is a TraceWriter that discards what it is given (the option must not weaken the limit).
+type c16trace struct{ s, r io.Writer }
+
+func (t *c16trace) SendWriter() *io.Writer    { return &t.s }
+func (t *c16trace) ReceiveWriter() *io.Writer { return &t.r }
 
 func (p c16) Run(c core.Case) core.Result {
 	var r core.Result
@@ -112,6 +119,10 @@ func (p c16) Run(c core.Case) core.Result {
 func (p c16) one(r *core.Result, L int, cls string, framed int, pos, frag string, seed uint64, fps map[string]bool) {
 	limit := int64(L)
 	cfg := &lime.TCPConfig{ReadLimit: limit}
+	if strings.HasSuffix(pos, "-trace") {
+		cfg.TraceWriter = &c16trace{s: io.Discard, r: io.Discard}
+		pos = strings.TrimSuffix(pos, "-trace")
+	}
 	eff := L
 	if L == 0 {
 		eff = int(lime.DefaultReadLimit)
@@ -155,6 +166,12 @@ func (p c16) one(r *core.Result, L int, cls string, framed int, pos, frag string
 		} else {
 			pre = append(pre, small(0))
 		}
+	case "primed":
+		// a predecessor close to the limit grows the decoder's buffer; then a tiny envelope is coalesced with the target
+		if eff-1 >= c16minValue {
+			pre = append(pre, append(c16msg("pL", eff-2), '\n'))
+		}
+		pre = append(pre, small(1))
 	case "unreadnl":
 		// predecessor value is written without its newline; the newline arrives together with the target
 		pre = append(pre, c16msg("pn", c16minValue+1))
@@ -200,7 +217,18 @@ func (p c16) one(r *core.Result, L int, cls string, framed int, pos, frag string
 		fps[key] = true
 	}
 	writeDone := make(chan struct{})
-	if pos == "coalesced" || pos == "first" || unreadNL {
+	if pos == "primed" && len(pre) == 2 {
+		go func() {
+			_, _ = tp.CA.Write(pre[0])
+			// wait until the big predecessor has been consumed, then send the tiny one together with the target
+			for tp.CB.Buffered() > 0 {
+				time.Sleep(50 * time.Microsecond)
+			}
+			time.Sleep(200 * time.Microsecond)
+			_, _ = tp.CA.Write(append(append([]byte{}, pre[1]...), tail...))
+			close(writeDone)
+		}()
+	} else if pos == "coalesced" || pos == "first" || unreadNL {
 		go func() {
 			_, _ = tp.CA.Write(append(append([]byte{}, stream...), tail...))
 			close(writeDone)
@@ -225,7 +253,7 @@ func (p c16) one(r *core.Result, L int, cls string, framed int, pos, frag string
 		_ = env
 	}
 	<-writeDone
-	if !(pos == "coalesced" || pos == "first" || unreadNL) {
+	if !(pos == "coalesced" || pos == "first" || unreadNL || (pos == "primed" && len(pre) == 2)) {
 		go func() { _, _ = tp.CA.Write(tail) }()
 	}
 	env, err, consumed := recvOne()
